@@ -46,6 +46,9 @@ CLAIMED = {
  "C16": dict(engine="E4", technique="exhaustive enumeration of all code points and short strings; per-string database scenario",
    text="All 1 112 064 Unicode scalar values and all strings up to the length bound over a case-folding-hostile alphabet go through the real constraint code (mapping and idempotence); each string is stored at every constrained path and searched with case variants and neighbours; uniqueness on canonical values.",
    note="Valid UTF-8 only; strings of length <= 2 (quick) / 3 (thorough).", ref="6/C16"),
+ "C19": dict(engine="E4", technique="exhaustive enumeration of single file mutations, stray entries and argument triples",
+   text="For every base database every truncation, every single-byte substitution from a 12-byte set, every single JSON-tree mutation of schema.json and of every object file, stray files and directories, and 23 x 11 x 26 search argument triples are enumerated; each case runs the whole public call set on a fresh handle under recover: no panic, no hang, no objects from a failed search.",
+   note="One mutation per file (thorough: pairs inside the index subtree); hang = 30 s wall watchdog.", ref="6/C19"),
 }
 
 NOT_YET = {}
